@@ -97,6 +97,16 @@ class CoreMixin:
         self.obls.append(o)
         return o
 
+    # ---- attributes of objects allocated in this activation live in the state (path-local)
+    def oattrs(self, st, so):
+        if st is not None:
+            return st.ghost.get(("O", so.oid), so.attrs)
+        return so.attrs
+
+    def oset(self, st, so, name, v):
+        cur = self.oattrs(st, so)
+        st.ghost = {**st.ghost, ("O", so.oid): {**cur, name: v}}
+
     # ---- lifting python-side values into SMT values
     def lift(self, v):
         if isinstance(v, Val):
@@ -144,7 +154,7 @@ class CoreMixin:
             self.escaped.append(n)
             self.escaped_objs[so.term] = so
         # attribute facts are (re)stated at escape time (strong updates before escape only)
-        for a, val in so.attrs.items():
+        for a, val in self.oattrs(getattr(self, "spec_state", None) or getattr(self, "lift_state", None), so).items():
             try:
                 t = asV(self.lift(val))
             except OutOfSubset:
@@ -157,8 +167,9 @@ class CoreMixin:
     # ---- attribute access in contract expressions (total, no exceptions)
     def spec_getattr(self, base, name):
         if isinstance(base, SymObj):
-            if name in base.attrs:
-                return base.attrs[name]
+            attrs = self.oattrs(getattr(self, "spec_state", None), base)
+            if name in attrs:
+                return attrs[name]
             cv = self.class_attr(base.cls, name)
             if cv is not None:
                 return cv
@@ -175,9 +186,9 @@ class CoreMixin:
             cv = self.class_attr(base.cls, name)
             if cv is not None and name not in self.instance_attrs(base.cls):
                 return cv
-        if base.t in self.escaped_objs and name in self.escaped_objs[base.t].attrs:
-            return self.escaped_objs[base.t].attrs[name]
         st = getattr(self, "spec_state", None)
+        if base.t in self.escaped_objs and name in self.oattrs(st, self.escaped_objs[base.t]):
+            return self.oattrs(st, self.escaped_objs[base.t])[name]
         fn = self.cur_attr(st, name) if st is not None else self.attr_fun(name)
         hint = self.attr_kinds.get(name)
         return Val(f"({fn} {asV(base)})", kind=hint[0] if hint else None, cls=hint[1] if hint else None)
